@@ -2,7 +2,7 @@
 REG = dict(
     engine='E1-enum',
     technique='exhaustive enumeration of effectful built-in x argument vector x call position x import form x sandbox mode, each run as a real CLI process in a private fixture directory whose tree is hashed before and after',
-    text="Every function of __fs.gdn and __shell.gdn (table parsed from the repository at run time), read_line, shell_arguments, every built-in Path method, source_file and built_in_files is called with every argument vector of a pool (existing/missing/absolute/nested path, directory, empty directory, wrong type, arity n-1/n+1; one-position deviations from a primary vector in quick, the full product in thorough) at 7 call positions (top level, function, closure, method, test body, closure passed to map, function reference passed to map), qualified (`ns::f`) and unqualified import, under `playground-run` and `sandboxed-test` (offset inside the test and outside every test); in quick the full position x form x mode cross is run for the primary vector and the other vectors at top level / function / test body. Oracle: for a well-typed call of anything that creates/modifies/deletes/reads files, starts a process or reads stdin the evaluation ends with the sandbox error; in every case the fixture tree (names, kinds, sizes, mtimes, sha1) is unchanged, the canary executables first on PATH did not run, no fixture secret (file content, directory entry name, stdin token) reaches the output, and the process finishes although stdin is a pipe that stays open and silent. A non-sandboxed `garden run` of the same call per function shows each detector firing.",
+    text="Every function of __fs.gdn and __shell.gdn (table parsed from the repository at run time), read_line, shell_arguments, every built-in Path method, source_file and built_in_files is called with every argument vector of a pool (existing/missing/absolute/nested path, directory, empty directory, wrong type, arity n-1/n+1; one-position deviations from a primary vector in quick, the full product in thorough) at 7 call positions (top level, function, closure, method, test body, closure passed to map, function reference passed to map), qualified (`ns::f`) and unqualified import, under `playground-run` and `sandboxed-test` (offset inside the test and outside every test); in quick the full position x form x mode cross is run for the primary vector and the other vectors at top level / function / test body. Oracle: for a call of anything that creates/modifies/deletes/reads files, starts a process or reads stdin (functions: whatever the arguments, also wrong types and arity; methods: well-typed calls) the evaluation ends with the sandbox error; in every case the fixture tree (names, kinds, sizes, mtimes, sha1) is unchanged, the canary executables first on PATH did not run, no fixture secret (file content, directory entry name, stdin token) reaches the output, and the process finishes although stdin is a pipe that stays open and silent. A non-sandboxed `garden run` of the same call per function shows each detector firing.",
     note='Effects are observed from outside the process (tree hash, PATH canary, secrets, stdin token); reads that reveal a single bit (exists) are only covered by the demanded sandbox error. `import` of a local file and check_snippet read the imported file even when sandboxed: recorded as an outcome, outside the statement (not the filesystem API). Environment variables, working-directory bookkeeping and source_file (path canonicalisation) are observed, not demanded.',
     design_ref='DESIGN.md §6 C24',
 )
@@ -385,7 +385,10 @@ def run(ctx):
     for (f, labels, srcs, ok, form, pos, mode, offv), r in zip(cases, res):
         k = f["key"]
         combo = (pos, mode if mode == "playground-run" else f"{mode}({offv})")
-        demanded = f["cls"] in ("file", "process", "stdin") and ok and not (mode == "sandboxed-test" and pos == "top")
+        # "with any arguments": a function of the fs/shell API (or read_line) is refused whatever it is handed, also with the wrong
+        # types or arity; a method needs a receiver of the right type to be reached at all, so ill-typed method calls are not demanded
+        is_method = "::" in k
+        demanded = f["cls"] in ("file", "process", "stdin") and (ok or not is_method) and not (mode == "sandboxed-test" and pos == "top")
         if demanded:
             universe.setdefault(k, set()).add(combo)
         whats = []
@@ -407,6 +410,8 @@ def run(ctx):
         elif r["cls"] == "returned":
             n_allowed += 1
         ctx.outcome(f"{f['cls']}:{'well-typed' if ok else 'ill-typed'}:{r['cls']}")
+        if not ok and os.environ.get("GV_C24_DEBUG"):
+            ctx.outcome(f"DBG {k} {'/'.join(labels)} {pos} {mode}: {r['cls']}")
         for w in set(whats):
             fails.setdefault(k, {}).setdefault(combo, {"whats": set(), "example": None})["whats"].add(w)
         if whats and fails[k][combo]["example"] is None:
